@@ -33,6 +33,25 @@ CHECKS = {
             'random and block-edge partitions in the default, SMALL_FOOTPRINT (and SM3_SSE in thorough) builds and '
             'compared byte for byte with an independent implementation; thorough adds >2^32-bit messages.',
             '4/C03', TRUSTED),
+    'C04': ('exploration',
+            'sanitized execution (ASan+UBSan) compared byte for byte with pure-Python models of SM4, AES, ZUC, ChaCha20, '
+            'GHASH and every mode (self-tested on published vectors); NULL-output size queried before every call and '
+            'enforced on exactly-sized guarded blocks',
+            'SM4, AES-128/192/256, ZUC-128/256 (keystream, EEA3, EIA3, ZUC-256 MAC), ChaCha20, GHASH and ECB, padded CBC, CTR, '
+            'CTR32, CFB-1..16, OFB, XTS (GB/T 17964), GCM (IV 1..64, tag 12..16, AAD 0..64), CCM (nonce 7..13, all tags), '
+            'CBC-MAC: message lengths 0..96 + sampled (every length 0..4096 in thorough), default and SMALL_FOOTPRINT builds '
+            '(AES-NI/AVX2 in thorough); one-shot, in place, decrypt of the reference ciphertext, streaming under byte-wise, '
+            'seeded-random, block-edge and single-call partitions, counters wrapping at 2^128 and 2^32.',
+            '4/C04', TRUSTED),
+    'C05': ('fault_enumeration',
+            'sanitized execution; for each sampled case the complete single-bit / truncation / extension neighbourhood of a '
+            'valid AEAD output is enumerated and every member must be refused, with positive controls before and after',
+            'SM4-GCM one-shot and streaming (tag 12..16), AES-GCM (three key sizes), SM4-CCM, SM4-CBC+SM3-HMAC, '
+            'SM4-CTR+SM3-HMAC: messages 0..48 bytes, AAD 0..20; every bit of nonce, AAD, ciphertext and tag, every proper '
+            'prefix, one-byte extensions front and back; streaming decryptors under three chunkings per fault. Exhaustive '
+            'within a case, sampled across cases. The IV of the two HMAC constructions is not authenticated (recorded open '
+            'finding).',
+            '4/C05', TRUSTED),
     'C06': ('exploration',
             'libFuzzer (clang ASan + UBSan subset) on nine decoder-family targets seeded with run-time generated valid '
             'objects; MemorySanitizer replay of the grown corpora; hostile TLS peer (structure-aware mutations of real '
